@@ -604,6 +604,47 @@ func check(c Case) (vk.Outcome, error) {
 			return out, err
 		}
 		out.NonTrivial = c.A > 0
+	case "Join":
+		// inputs get spare capacity filled with a marker: Join must build a NEW slice (documented: "joins
+		// together the contents"), leaving every input - and whatever lies behind its length - alone.
+		ins := make([][]int, len(c.In2))
+		total := 0
+		for i, x := range c.In2 {
+			extra := (c.Cap + i*c.A) % 7
+			if extra < 0 {
+				extra = -extra
+			}
+			b := make([]int, len(x)+extra)
+			copy(b, x)
+			for j := len(x); j < len(b); j++ {
+				b[j] = -7
+			}
+			ins[i] = b[:len(x)]
+			total += len(x)
+		}
+		got := xslices.Join(ins...)
+		var want []int
+		for _, x := range c.In2 {
+			want = append(want, x...)
+		}
+		if !eqInts(got, want) {
+			return out, viol(c, "Join = %v want %v", got, want)
+		}
+		for i := range got {
+			got[i] = -99 // scribble over the result
+		}
+		for i, x := range c.In2 {
+			if !eqInts(ins[i], x) {
+				return out, viol(c, "input %d changed when the result was modified: the result aliases it (%v, was %v)", i, ins[i], x)
+			}
+			full := ins[i][:cap(ins[i])]
+			for j := len(x); j < len(full); j++ {
+				if full[j] != -7 {
+					return out, viol(c, "Join wrote into the spare capacity of input %d (slot %d = %d)", i, j, full[j])
+				}
+			}
+		}
+		out.NonTrivial = len(c.In2) >= 2 && total >= 2
 	case "ClearFillJoinRepeat":
 		x := append([]el{}, in...)
 		xslices.Fill(x, el{7, 7})
@@ -790,7 +831,7 @@ func runCase(c Case) (vk.Outcome, error) { return check(c) }
 // ---------------------------------------------------------------- generated (rapid) cases
 
 var fns = []string{"Partition", "Filter", "FilterInPlace", "AllAnyCount", "Unique", "UniqueInPlace", "Compact", "CompactInPlace", "Runs", "Group",
-	"Chunk", "RemoveUnordered", "Shrink", "Reverse", "Search", "MergeSlices", "Merge", "MinK", "SortHelpers", "SetAlgebra", "MapHelpers", "Abs", "Clamp", "WithStack", "ClearFillJoinRepeat"}
+	"Chunk", "RemoveUnordered", "Shrink", "Reverse", "Search", "MergeSlices", "Merge", "MinK", "SortHelpers", "SetAlgebra", "MapHelpers", "Abs", "Clamp", "WithStack", "ClearFillJoinRepeat", "Join", "Join"}
 
 func genCase(t *rapid.T) Case {
 	c := Case{Fn: rapid.SampledFrom(fns).Draw(t, "fn")}
@@ -828,7 +869,7 @@ func genCase(t *rapid.T) Case {
 				c.In2 = append(c.In2, rapid.SliceOfN(rapid.IntRange(0, 7), 1, 10).Draw(t, "set"))
 			}
 		}
-	case "MergeSlices", "Merge":
+	case "MergeSlices", "Merge", "Join":
 		k := rapid.IntRange(0, 4).Draw(t, "k")
 		for i := 0; i < k; i++ {
 			if rapid.IntRange(0, 3).Draw(t, "empty") == 0 {
